@@ -1,12 +1,16 @@
 from flamapy.core.transformations import ModelToText
 
-from flamapy.core.models.ast import Node
+from flamapy.core.models.ast import Node, ASTOperation
 from flamapy.metamodels.fm_metamodel.models import (
     Feature,
     FeatureModel,
     Relation,
     Attribute
 )
+
+
+# Operators whose AFM keyword is not the name of the ASTOperation
+AFM_OPERATORS = {ASTOperation.EQUIVALENCE: 'IFF'}
 
 
 class AFMWriter(ModelToText):
@@ -124,7 +128,7 @@ class AFMWriter(ModelToText):
     def recursive_constraint_read(self, node: Node) -> str:
         if node.is_term():
             return str(node.data)
-        operator = node.data.value.upper()
+        operator = AFM_OPERATORS.get(node.data, node.data.value.upper())
         if node.is_unary_op():  # the operand of a unary operation is its left child
             return operator + " " + self._constraint_operand(node.left)
         return (self._constraint_operand(node.left) + " " + operator + " "
